@@ -33,6 +33,7 @@ type Program struct {
 	globInfo  map[*ssa.Global]*globalInfo
 	fset      *token.FileSet
 	assumed   []string
+	funcValues []*ssa.Function
 	recSpec   map[string]bool
 	curCaller string
 	specComps     map[string][]string
@@ -335,9 +336,77 @@ func (P *Program) callEffects(ci ssa.CallInstruction, vc *VC) *effects {
 	if fn := P.resolveFuncValue(c.Value); fn != nil {
 		return P.staticEffects(fn, c)
 	}
-	// unknown callee: conservatively nothing known; flagged at execution
+	// dynamic call through a function value: the union of the effects of every
+	// function of the repository with that signature whose value is taken
+	// somewhere (closed world: the callers are unexported)
 	e.allocs = true
+	if sig, ok := c.Value.Type().Underlying().(*types.Signature); ok {
+		for _, cand := range P.funcValuesOfSig(sig) {
+			ce := P.funcEffects(cand)
+			for k, v := range ce.comps {
+				e.comps[k] = v
+			}
+		}
+	}
 	return e
+}
+
+// funcValuesOfSig lists the functions of the repository used as values
+// (closures, function-typed operands) whose signature is identical to sig.
+func (P *Program) funcValuesOfSig(sig *types.Signature) []*ssa.Function {
+	if P.funcValues == nil {
+		P.funcValues = []*ssa.Function{}
+		seen := map[*ssa.Function]bool{}
+		var all []*ssa.Function
+		var add func(f *ssa.Function)
+		add = func(f *ssa.Function) {
+			all = append(all, f)
+			for _, a := range f.AnonFuncs {
+				add(a)
+			}
+		}
+		for _, f := range P.funcs {
+			add(f)
+		}
+		for _, f := range all {
+			if !P.inRepo(f) {
+				continue
+			}
+			for _, b := range f.Blocks {
+				for _, ins := range b.Instrs {
+					if mc, ok := ins.(*ssa.MakeClosure); ok {
+						if fn := mc.Fn.(*ssa.Function); !seen[fn] {
+							seen[fn] = true
+							P.funcValues = append(P.funcValues, fn)
+						}
+					}
+					var ops []*ssa.Value
+					isCall := false
+					var callee ssa.Value
+					if ci, ok := ins.(ssa.CallInstruction); ok {
+						isCall = true
+						callee = ci.Common().Value
+					}
+					for _, op := range ins.Operands(ops) {
+						if op == nil || *op == nil {
+							continue
+						}
+						if fn, ok := (*op).(*ssa.Function); ok && !(isCall && callee == *op) && P.inRepo(fn) && !seen[fn] {
+							seen[fn] = true
+							P.funcValues = append(P.funcValues, fn)
+						}
+					}
+				}
+			}
+		}
+	}
+	var out []*ssa.Function
+	for _, f := range P.funcValues {
+		if types.Identical(f.Signature, sig) {
+			out = append(out, f)
+		}
+	}
+	return out
 }
 
 func (P *Program) resolveFuncValue(v ssa.Value) *ssa.Function {
